@@ -70,7 +70,7 @@ def slice_assumptions(obl):
     return keep
 
 
-def check_z3(obl, rlimit, timeout_ms=240000, assumptions=None, opts=None):      # the resource limit is the real (deterministic) bound; the wall-clock limit is a safety net sized for a fully loaded machine
+def check_z3(obl, rlimit, timeout_ms=120000, assumptions=None, opts=None):      # the resource limit is the real (deterministic) bound; the wall-clock limit is a safety net sized for a fully loaded machine
     s = z3.Solver()
     s.set('rlimit', rlimit)
     s.set('timeout', timeout_ms)
@@ -241,7 +241,7 @@ def discharge(obl, tier='quick', second_opinion=False, cvc5_ok=True, rl_div=1):
             res['candidate_model'] = cm
     except Exception as e:
         res['candidate_error'] = f'{type(e).__name__}: {e}'
-    r2, dt2 = check_cvc5(obl, 120 if tier == 'quick' else 300)      # wall-clock limits: sized so that a verdict does not flip when all cores are busy
+    r2, dt2 = check_cvc5(obl, 120 if tier == 'quick' else 180)      # wall-clock limits: sized so that a verdict does not flip when all cores are busy
     res['cvc5'] = r2
     res['cvc5_fallback_seconds'] = time.time() - t_fb
     res['seconds'] += dt2
